@@ -71,6 +71,15 @@ def compare(line, robs, mobs):
             return None
         return 'real=%s model=%s' % (robs[:60], mobs[:60])
     op = line.split()[0]
+    if op == 'interp':
+        # weighted means: IEEE result vs exact rational, relative tolerance 2^-20 on every token
+        la, lb = robs.split(','), mobs.split(',')
+        if len(la) != len(lb):
+            return 'interp: lengths differ'
+        for i, (x, y) in enumerate(zip(la, lb)):
+            if not approx_equal(x, y):
+                return 'interp: index %d: real=%s model=%s' % (i, x, y)
+        return None
     if op == 'fitsraw':
         m = kvs(mobs)
         if m.get('inv') != 'ok':
@@ -119,6 +128,28 @@ def tok_equal(x, y):
     n, d = y.split('/')
     ry = Fraction(int(n), int(d))
     return abs(rx - ry) <= abs(ry) * Fraction(1, 2 ** 20)
+
+
+def to_fraction(t):
+    from fractions import Fraction
+    if '/' in t:
+        n, d = t.split('/')
+        return Fraction(int(n), int(d))
+    if '^' in t:
+        n, e = t.split('^')
+        return Fraction(int(n), 2 ** int(e))
+    return Fraction(int(t))
+
+
+def approx_equal(x, y):
+    if x == y:
+        return True
+    try:
+        fx, fy = to_fraction(x), to_fraction(y)
+    except (ValueError, ZeroDivisionError):
+        return False
+    from fractions import Fraction
+    return abs(fx - fy) <= max(abs(fx), abs(fy)) * Fraction(1, 2 ** 20)
 
 
 def vals_equal(a, b):
@@ -211,6 +242,8 @@ def shrink(lines, max_rounds=200):
     # shrink pixel lists of the remaining lines
     for i in range(len(cur)):
         toks = cur[i].split()
+        if any(t.startswith(('ring=', 'lon=', 'nb=', 'r2n=', 'n2r=')) for t in toks):
+            continue
         for j, t in enumerate(toks):
             if t.startswith('pix=') and ',' in t:
                 pix = t[4:].split(',')
